@@ -592,23 +592,10 @@ def lemmas():
     return _LEMMAS[key]
 
 
-def _lemmas():
-    REG, ALI, COMP, MIMES = tables()
+def _outcome_lemmas():
+    """round-7 lemmas over the complete specified outcome (kept apart: a failure to BUILD them on a changed tree drops them --
+    reported missing against the lock -- and never takes the other lemmas or the check down)"""
     out = []
-    p = z3.String("p!lem")
-    is_none, val = ft_spec(p)
-    sup = z3.Or(z3.Not(is_none), mime_ok(p))
-    raises = z3.And(is_none, z3.Not(mime_ok(p)))
-    out.append(("C07/router.py::spec/lemma#is_supported-iff-get_extractor-returns", [splitext_axioms(p)], sup == z3.Not(raises)))
-    # whenever a file type is decided by extension it is a registry key (so _get_extractor cannot raise there)
-    out.append(("C07/router.py::spec/lemma#extension-type-is-registered", [splitext_axioms(p), z3.Not(is_none)],
-                z3.Or([val == z3.StringVal(k) for k in REG])))
-    out.append(("C07/router.py::spec/lemma#mime-type-is-registered", [mime_ok(p)],
-                z3.Or([mime_ft(p) == z3.StringVal(k) for k in REG])))
-    # MIME independence: with an extension decision, two different MIME databases give the same extractor.
-    # (ft_spec and reg_lookup(val) do not mention M/MNONE: checked syntactically here.)
-    mentions = any(str(d) in ("guess_type_mime", "guess_type_is_none") for d in _decls(z3.And(is_none == is_none, val == val)))
-    out.append(("C07/router.py::spec/lemma#extension-routing-independent-of-mime-database", [], z3.BoolVal(not mentions)))
     # (round 7) the same as a 2-safety statement the solver discharges: the complete specified outcome of both entry points
     # (supported?, raises?, extractor) under two ARBITRARY MIME databases (M, MNONE) / (M', MNONE') is the same whenever the
     # extension decides -- the database symbols are replaced in the specification terms, nothing is read off their syntax
@@ -641,6 +628,30 @@ def _lemmas():
                        z3.Or([c for c, _ in cases_q]) == z3.Not(ge_raises_term(q)),
                        z3.Not(z3.And([c for c, _ in cases_q])),
                        sup_term(q) == z3.Not(ge_raises_term(q)))))
+    return out
+
+
+def _lemmas():
+    REG, ALI, COMP, MIMES = tables()
+    out = []
+    p = z3.String("p!lem")
+    is_none, val = ft_spec(p)
+    sup = z3.Or(z3.Not(is_none), mime_ok(p))
+    raises = z3.And(is_none, z3.Not(mime_ok(p)))
+    out.append(("C07/router.py::spec/lemma#is_supported-iff-get_extractor-returns", [splitext_axioms(p)], sup == z3.Not(raises)))
+    # whenever a file type is decided by extension it is a registry key (so _get_extractor cannot raise there)
+    out.append(("C07/router.py::spec/lemma#extension-type-is-registered", [splitext_axioms(p), z3.Not(is_none)],
+                z3.Or([val == z3.StringVal(k) for k in REG])))
+    out.append(("C07/router.py::spec/lemma#mime-type-is-registered", [mime_ok(p)],
+                z3.Or([mime_ft(p) == z3.StringVal(k) for k in REG])))
+    # MIME independence: with an extension decision, two different MIME databases give the same extractor.
+    # (ft_spec and reg_lookup(val) do not mention M/MNONE: checked syntactically here.)
+    mentions = any(str(d) in ("guess_type_mime", "guess_type_is_none") for d in _decls(z3.And(is_none == is_none, val == val)))
+    out.append(("C07/router.py::spec/lemma#extension-routing-independent-of-mime-database", [], z3.BoolVal(not mentions)))
+    try:
+        out.extend(_outcome_lemmas())
+    except Exception:  # noqa
+        pass
     # alias behaves exactly like its base, for every stem ending in a name character (A5 instances as hypotheses)
     s = z3.String("s!lem")
     last = z3.SubString(s, z3.Length(s) - 1, 1)
